@@ -9,6 +9,9 @@ Space (every member is visited, nothing sampled)
   hidden  : directed family "recursive symbol behind nullable prefixes" (models.grammar.family_hidden)
             under all 24 assignments of the names A,B,C,E to the four roles, start symbol = role R
             (thorough: R and S).
+  dictedit: 2-step construction sequences on ONE productions dict object that is edited in place between
+            the calls (insert a cycle-closing alternative into an acyclic grammar / remove it again): every
+            constructor call is judged on the current content of the dict.
   both smart_factorization settings; for every accepted grammar all token strings of length <= L.
 
 Oracle 1: GrammarIsRecursive  <=>  the reference left-reach relation has a cycle.
@@ -52,7 +55,9 @@ REQUIRED_FEATURES = ["ref:left-recursive", "ref:not-left-recursive", "ref:cycle-
                      "ref:cycle-first-position", "impl:GrammarIsRecursive", "impl:accepted",
                      "grammar:nullable-before-nonterminal", "parse:tree", "parse:ParsingError",
                      "names:recursive-symbol-sorts-after-nullable-prefix",
-                     "names:recursive-symbol-sorts-before-nullable-prefix"]
+                     "names:recursive-symbol-sorts-before-nullable-prefix",
+                     "history:same-productions-dict-edited-then-constructed-again",
+                     "history:dict-edit:insert-cycle", "history:dict-edit:remove-cycle"]
 
 _SIZED = {
     # name: (non-terminals, terminals, max_alts, max_len, max_size, input length, shards)
@@ -77,12 +82,91 @@ def bounds(tier):
                           "nullable_prefix_len_max": _HIDDEN_PREFIX[tier],
                           "name_assignments": 24, "start_symbols": _HIDDEN_STARTS[tier], "input_len_max": _HIDDEN_L[tier]},
         "modes": ["smart_factorization=True", "smart_factorization=False"],
+        "dict_edit_sequences": {"base_grammars": "acyclic grammars over (A, B) / x, size <= 3",
+                                "edits": len(_dict_edit_cases()), "directions": 2, "start_symbols": 2},
         "step_budget": H.STEP_BUDGET}
     return b
 
 
+def _dict_edit_cases():
+    """2-step construction sequences on ONE productions dict object: every acyclic grammar over (A, B) / x
+    with total size <= 3 x every alternative of a small menu inserted (front / end) into one symbol's list
+    such that the edited grammar is left recursive.  Each case is run in both directions: construct, insert
+    in place, construct again -- and: construct the edited one, remove in place, construct again."""
+    out = []
+    for prods in G.enum_sized(("A", "B"), ("x",), 2, 2, 3):
+        pm = dict(prods)
+        if G.left_cycle(pm):
+            continue
+        for sym, other in (("A", "B"), ("B", "A")):
+            for alt in ((sym,), (sym, "x"), (other,), (other, sym), (other, "x")):
+                if alt in pm[sym]:
+                    continue
+                for pos in ("front", "end"):
+                    new = ((alt,) + pm[sym]) if pos == "front" else (pm[sym] + (alt,))
+                    if G.left_cycle(dict(pm, **{sym: new})):
+                        out.append((prods, sym, alt, pos))
+    return out
+
+
+def run_dict_edits(acc, inputs_L=3, only=None):
+    cfg = G.letters_cfg("x")
+    inputs = _inputs(cfg, inputs_L)
+    cases = _dict_edit_cases() if only is None else [only[:4]]
+    for prods, sym, alt, pos in cases:
+        for direction in (("insert", "remove") if only is None else (only[4],)):
+            for smart in ((True, False) if only is None else (only[5],)):
+                for start in ("A", "B"):
+                    if only is not None and start != only[6]:
+                        continue
+                    # the dict object and its lists are owned here and edited in place
+                    d = {x: [a if a else None for a in alts] for x, alts in prods}
+                    item = alt
+                    def put():
+                        d[sym].insert(0, item) if pos == "front" else d[sym].append(item)
+                    def take():
+                        d[sym].remove(item)
+                    if direction == "remove":
+                        put()
+                    feats = ["history:same-productions-dict-edited-then-constructed-again",
+                             "history:dict-edit:" + direction + "-cycle"]
+                    steps = []
+                    bad = None
+                    for step in (0, 1):
+                        cur = tuple((x, tuple(a if a is not None else () for a in alts)) for x, alts in d.items())
+                        cyc = G.left_cycle(dict(cur))
+                        with H.Watchdog():
+                            res, p = H.build_from_dict(cfg, start, d, smart)
+                        acc.trans()
+                        steps.append(res)
+                        if res == "ok" and cyc:
+                            bad = ("left-recursion-not-rejected:" + G.cycle_kind(dict(cur)), cur, cyc)
+                            for toks in inputs:
+                                r, _ = H.parse(p, cfg, toks)
+                                acc.trans()
+                                if r.startswith("abort"):
+                                    feats.append("history:dict-edit:accepted-cycle-does-not-terminate")
+                                    break
+                        elif res == "recursive" and not cyc:
+                            bad = ("grammar-without-left-recursion-rejected", cur, cyc)
+                        if bad:
+                            case = G.to_case(cfg, start, prods, smart=smart, dict_edit={
+                                "symbol": sym, "alt": list(alt), "pos": pos, "direction": direction})
+                            acc.violation("C03:" + bad[0] + ":same-productions-dict-edited-in-place", case,
+                                          f"construction {step + 1} of 2 from one productions dict object "
+                                          f"({direction} {sym}→{' '.join(alt)} in place between the calls): the "
+                                          f"constructor answered {res!r} for the current content "
+                                          f"{G.show(bad[1], start)} (reference: cycle through {bad[2] or 'nothing'})",
+                                          res, "GrammarIsRecursive" if bad[2] else "a parser")
+                            break
+                        if step == 0:
+                            take() if direction == "remove" else put()
+                    acc.case(nontrivial=True, features=feats, outcome="/".join(steps) + ("!" if bad else ""),
+                             traces=2)
+
+
 def shards(tier):
-    sh = []
+    sh = [("dictedit",)]
     for i, (n, t, ma, ml, ms, L, K) in enumerate(_SIZED[tier]):
         sh += [("sized", i, k, K) for k in range(K)]
     sh += [("hidden", list(p)) for p in itertools.permutations(NAMES4)]
@@ -208,6 +292,9 @@ def _inputs(cfg, L):
 
 
 def run_shard(shard, tier, seed, acc):
+    if shard[0] == "dictedit":
+        run_dict_edits(acc, 3 if tier == "quick" else 4)
+        return
     if shard[0] == "sized":
         _, i, k, K = shard
         nts, terms, ma, ml, ms, L, _ = _SIZED[tier][i]
@@ -247,6 +334,11 @@ def run_shard(shard, tier, seed, acc):
 
 def replay(case, acc):
     cfg, start, prods = G.from_case(case)
+    if case.get("dict_edit"):
+        e = case["dict_edit"]
+        run_dict_edits(acc, only=(prods, e["symbol"], tuple(e["alt"]), e["pos"], e["direction"],
+                                  case["smart"], start))
+        return
     if case.get("input") is not None:
         inputs = [tuple(tuple(t) for t in case["input"])]
     else:
